@@ -11,7 +11,9 @@ Fault enumeration on real runs:
     untouched, temporary directory gone, exit status 1;
  3. real SIGINT / SIGKILL to the main pid at seeded instants (black box);
  4. a live reader polling the output file during black-box runs: everything
-    it reads must be the token sequence of a candidate the command accepted.
+    it reads must be the token sequence of a candidate the command accepted;
+ 5. a sample of black-box runs under strace: the only system calls that name
+    the output file are renames onto it and read-only opens.
 """
 import os
 import shutil
@@ -267,6 +269,60 @@ def signal_run(res, wd, case, r):
                 res.count('tmpdir_left_when_interrupted_during_shutdown')
 
 
+def strace_run(res, wd, case):
+    """(5) system-call corroboration, independent of the Python-level hooks:
+    the content of the output file may change only by a rename onto it."""
+    import re
+    import subprocess
+    text, rules, opts, desc = case
+    os.makedirs(wd, exist_ok=True)
+    trace = os.path.join(wd, 'strace.txt')
+    # run the real executable under strace through the harness: wrap argv
+    run = realrun.run_ddsmt(wd, text, rules, opts=opts, argv_prefix=[
+        'strace', '-f', '-qq', '-o', trace, '-e',
+        'trace=openat,open,creat,rename,renameat,renameat2,unlink,unlinkat,'
+        'truncate,ftruncate'])
+    res.count('evaluations')
+    res.count('strace_runs')
+    if run.timed_out or not os.path.exists(trace):
+        res.count('strace_runs_failed')
+        return
+    name = os.path.basename(run.outfile)
+    renames = 0
+    with open(trace, errors='replace') as f:
+        for line in f:
+            if name + '"' not in line:
+                continue
+            # the temporary sibling <outfile>.<pid>.tmp does not match
+            # '<name>"' as a whole path component end
+            m = re.search(r'(\w+)\((.*)', line)
+            if not m:
+                continue
+            call, rest = m.group(1), m.group(2)
+            target_is_out = re.search(r'"[^"]*/' + re.escape(name) + r'"',
+                                      rest) is not None
+            if not target_is_out:
+                continue
+            if call.startswith('rename'):
+                # rename(old, new): only 'new' may be the output file
+                parts = re.findall(r'"([^"]*)"', rest)
+                if parts and parts[-1].endswith('/' + name):
+                    renames += 1
+                    continue
+            if call in ('openat', 'open') and 'O_RDONLY' in rest and \
+                    'O_TRUNC' not in rest:
+                continue
+            w = dict(desc)
+            w['opts'] = opts
+            w['syscall'] = line.strip()[:300]
+            res.violation('truncate-then-write',
+                          f'system call on the output file other than a '
+                          f'rename onto it or a read: {line.strip()[:160]}',
+                          w)
+            break
+    res.count('renames_onto_output_observed', renames)
+
+
 def shard(args):
     res = common.ShardResult()
     r = common.rng('c06', args['shard'])
@@ -285,6 +341,10 @@ def shard(args):
             wd = os.path.join(base, f'sig{i}')
             signal_run(res, wd, case, r)
             shutil.rmtree(wd, ignore_errors=True)
+            if i % args.get('strace_every', 3) == 0 and not case[3]['big']:
+                wd = os.path.join(base, f'st{i}')
+                strace_run(res, wd, case)
+                shutil.rmtree(wd, ignore_errors=True)
             res.count('cases')
             if i < 1:
                 res.sample({'input': case[0][:500], 'rules': case[1],
